@@ -10,6 +10,8 @@ from hlib import POST, PARAMS, cs, case, notrace, stub_str
 stub_str()
 N = PARAMS.get('n', 4)
 MODE = PARAMS.get('mode', 'chains')       # chains | ring | subset
+KIND = PARAMS.get('kind', 'Node')            # key letters with lower-case letters: link keys are upper-cased internally
+PRE = PARAMS.get('prehistory', False)       # build another arrangement first and tear it down again
 SHARD = PARAMS.get('shard', 0)
 NSHARDS = PARAMS.get('nshards', 1)
 LAST_DIFF = None
@@ -88,15 +90,21 @@ def check(ai: int, fwd: bool) -> bool:
     fwd = True if fwd else False
     with notrace():
         m = xtuml.MetaModel(xtuml.IntegerGenerator())
-        m.define_class('C', [('Id', 'unique_id'), ('Next_Id', 'unique_id'), ('Name', 'string')])
-        ass = m.define_association(1, 'C', ['Next_Id'], False, True, 'precedes', 'C', ['Id'], False, True, 'succeeds')
+        m.define_class(KIND, [('Id', 'unique_id'), ('Next_Id', 'unique_id'), ('Name', 'string')])
+        ass = m.define_association(1, KIND, ['Next_Id'], False, True, 'precedes', KIND, ['Id'], False, True, 'succeeds')
         ass.formalize()
-        insts = [m.new('C', Name='x%d' % k) for k in range(N)]
+        insts = [m.new(KIND, Name='x%d' % k) for k in range(N)]
+        if PRE:
+            # history: one long chain in reverse creation order, then unrelated again
+            for k in range(N - 1, 0, -1):
+                xtuml.relate(insts[k], insts[k - 1], 1, 'precedes')
+            for k in range(N - 1, 0, -1):
+                xtuml.unrelate(insts[k], insts[k - 1], 1, 'precedes')
         for i, s in enumerate(succ):
             if s >= 0:
                 # navigating from i across 'precedes' reaches its successor
                 xtuml.relate(insts[i], insts[s], 1, 'precedes')
-        qs = m.select_many('C', lambda sel: (sub >> insts.index(sel)) & 1)
+        qs = m.select_many(KIND, lambda sel: (sub >> insts.index(sel)) & 1)
     fuel = [0]
     orig = xtuml.meta.navigate_one
 
@@ -154,9 +162,9 @@ def check_empty(fwd: bool) -> bool:
     """
     with notrace():
         m = xtuml.MetaModel(xtuml.IntegerGenerator())
-        m.define_class('C', [('Id', 'unique_id'), ('Next_Id', 'unique_id')])
-        ass = m.define_association(1, 'C', ['Next_Id'], False, True, 'precedes', 'C', ['Id'], False, True, 'succeeds')
+        m.define_class(KIND, [('Id', 'unique_id'), ('Next_Id', 'unique_id')])
+        ass = m.define_association(1, KIND, ['Next_Id'], False, True, 'precedes', KIND, ['Id'], False, True, 'succeeds')
         ass.formalize()
-    res = xtuml.sort_reflexive(m.select_many('C'), 1, 'succeeds' if fwd else 'precedes')
+    res = xtuml.sort_reflexive(m.select_many(KIND), 1, 'succeeds' if fwd else 'precedes')
     case('empty', True if fwd else False)
     return isinstance(res, xtuml.QuerySet) and len(res) == 0
